@@ -447,6 +447,12 @@ def check_C02(ctx):
         if not ok and b.status[i] == 'disagree':
             label_numeric_disagreement(rep, b, i)
         o = core.parse_outcome(b.impl[i])
+        om = core.parse_outcome(b.model[i])
+        if o[0] == 'VAL' and not sx.is_finite_num(o[1]) and om[0] == 'VAL' and sx.is_finite_num(om[1]):
+            # the same arithmetic in the reference computation stays an ordinary double
+            rep.oracle_fail('non-finite value %s returned at a point where the value is the ordinary double %s' % (
+                b.impl[i], b.model[i]), b, [i])
+            continue
         if b.status[i] == 'range':
             continue
         if o[0] == 'VAL' and not sx.is_finite_num(o[1]):
@@ -937,6 +943,7 @@ def check_C08(ctx):
     # semantic oracle: before / after at points
     b2 = Batch()
     pairs = []
+    versus = []
     labels = collections.Counter()
     for r in recs:
         rep.cases += 1
@@ -973,6 +980,19 @@ def check_C08(ctx):
                 ps = sx.point_sx(p)
                 pairs.append((b2.add('EVAL %s %s' % (ps, sx.to_sx(a))), b2.add('EVAL %s %s' % (ps, sx.to_sx(c))),
                               lab, j, r, a, c))
+            if b.status[j] == 'disagree':
+                # the implementation's result differs from the reference simplification (whose soundness is
+                # proved): compare the two results at points, relatively (no absolute slack)
+                try:
+                    mline = b.model[j] if lab == 'normalize' else b.model[j].split(' ', 1)[1]
+                    cm = core.parse_expr_line(mline)
+                except Exception:  # noqa: BLE001
+                    cm = None
+                if cm is not None and sx.size(cm) <= 200:
+                    for p in points_for(rng, a, 2) + [[(k_, 1e18) for k_ in sx.var_ids(a)]]:
+                        ps = sx.point_sx(p)
+                        versus.append((b2.add('EVAL %s %s' % (ps, sx.to_sx(a))), b2.add('EVAL %s %s' % (ps, sx.to_sx(c))),
+                                       b2.add('EVAL %s %s' % (ps, sx.to_sx(cm))), lab, j))
     b2.run(model=False)
     for ia, ic, lab, j, r, a, c in pairs:
         rep.stats['semantic_pairs'] += 1
@@ -1003,6 +1023,15 @@ def check_C08(ctx):
             kf = None
         rep.oracle_fail('%s: input is %s but result is %s at the same point' % (lab, b2.impl[ia], b2.impl[ic]),
                         b2, [ia, ic], kf=kf, extra={'rewrite': b.lines[j], 'result': b.impl[j]})
+    for ia, ic, im, lab, j in versus:
+        oa, oc, om = (core.parse_outcome(b2.impl[x]) for x in (ia, ic, im))
+        if oa[0] != 'VAL' or not finite_val(oa) or om[0] != 'VAL' or not finite_val(om):
+            continue
+        rep.stats['versus_reference_pairs'] += 1
+        if oc[0] != 'VAL' or not finite_val(oc) or not core.close(oc[1], om[1], rel=1e-9, abs_=0.0):
+            rep.oracle_fail('%s: at a point where the input has the value %s the result has %s, the reference '
+                            'simplification %s' % (lab, b2.impl[ia], b2.impl[ic], b2.impl[im]), b2, [ia, ic, im],
+                            extra={'rewrite': b.lines[j], 'result': b.impl[j], 'reference': b.model[j]})
     rep.stats.update({'label_' + k: v for k, v in labels.items()})
     rep.labels = labels
     # simplification of DAGs: expressions that reuse sub-expression objects, normalised / differentiated
